@@ -20,7 +20,7 @@ META = {
     "rule": (
         "case = (basis, 2-4 thread programs of 1-3 queries from {count, sorted(of_length), membership, "
         "list(up_to_length), re-create Av(equal basis) then count}, schedule). The harness owns the schedule: "
-        "every line of permset.py is a preemption point, the class lock is replaced by a cooperative lock whose "
+        "every line of permset.py is a preemption point and so is every step of a lazily consumed enumeration, the class lock is replaced by a cooperative lock whose "
         "acquisition is a scheduling point; schedules are Hypothesis-generated choice lists, plus PCT-style "
         "priority schedules, plus round-robin / run-to-completion corner schedules. Every query result is compared "
         "with the sequential answer of the brute-force model; exceptions and deadlocks are violations. A real-"
@@ -77,6 +77,12 @@ def selftest():
         raise engine.HarnessError("C07 harness self-test: AB/BA deadlock not detected")
 
 
+class LibraryIteratorError(Exception):
+    """Raised by the harness when next() on an iterator returned by the library raises something
+    other than StopIteration (the traceback of such an exception has no library frame when the
+    iterator is a built-in one, e.g. a dict iterator over a level)."""
+
+
 def _expected(rbasis, q):
     kind = q[0]
     if kind == "count":
@@ -92,16 +98,36 @@ def _expected(rbasis, q):
     raise engine.HarnessError(kind)
 
 
-def _run_query(av, jbasis, q):
+def _run_query(av, jbasis, q, pause=None):
+    """pause(): a scheduling point in the caller's own code - the results of of_length /
+    up_to_length are consumed lazily, one permutation at a time, as user code does, so other
+    threads can run (and build or compact levels) while an enumeration is half-way."""
     kind = q[0]
+
+    def drain(it):
+        out = []
+        it = iter(it)
+        while True:
+            try:
+                p = next(it)
+            except StopIteration:
+                break
+            except Exception as exc:  # pylint: disable=broad-except
+                # an iterator handed out by the library failed while being consumed the normal way
+                raise LibraryIteratorError(f"{type(exc).__name__}: {exc}") from exc
+            out.append(tuple(p))
+            if pause is not None:
+                pause()
+        return out
+
     if kind == "count":
         return av.count(q[1])
     if kind == "of_length":
-        return sorted(tuple(p) for p in av.of_length(q[1]))
+        return sorted(drain(av.of_length(q[1])))
     if kind == "in":
         return Perm(q[1]) in av
     if kind == "up_to":
-        got = [tuple(p) for p in av.up_to_length(q[1])]
+        got = drain(av.up_to_length(q[1]))
         return [sorted(p for p in got if len(p) == n) for n in range(q[1] + 1)]
     if kind == "recreate_count":
         return Av([_to_lib(b) for b in jbasis]).count(q[1])
@@ -116,6 +142,22 @@ def _make_chooser(spec):
     if spec["mode"] == "round_robin":
         return lambda step, runnable, prev: runnable[step % len(runnable)]
     raise engine.HarnessError(spec["mode"])
+
+
+def _chooser_at_pause(spec, pauses):
+    """Run thread `first` until it has consumed `after` items of an enumeration (or ends), then
+    the other threads to completion in index order, then the rest of `first`: puts the other
+    threads' level building and compaction in the middle of a half-consumed enumeration."""
+    first, after = spec["first"], spec["after"]
+
+    def choose(step, runnable, prev):
+        f = first % (max(runnable) + 1)
+        if f in runnable and pauses.get(f, 0) < after:
+            return f
+        others = [i for i in runnable if i != f]
+        return others[0] if others else runnable[0]
+
+    return choose
 
 
 def _validate(jbasis, programs):
@@ -138,14 +180,20 @@ def check_schedule(case):
     _validate(jbasis, programs)
     rbasis = [_to_ref(b) for b in jbasis]
     Av.clear_cache()
-    s = sched.Sched(_make_chooser(spec), TRACE_FILES)
+    pauses = {}
+    s = sched.Sched(_chooser_at_pause(spec, pauses) if spec["mode"] == "at_pause" else _make_chooser(spec), TRACE_FILES)
     old_switch = sys.getswitchinterval()
     # every lock permset.py holds or creates becomes cooperative, whatever its locking scheme
     # (one class-wide lock today); instances made inside the block get cooperative locks too
     with sched.Interpose(s, permset_mod, [Av] + [c for c in Av.__mro__[1:] if c.__module__.startswith("permuta")]):
         try:
             av = Av([_to_lib(b) for b in jbasis])
-            funcs = [(lambda prog=prog: [_run_query(av, jbasis, q) for q in prog]) for prog in programs]
+            def pause():
+                me = threading.current_thread().sched_idx
+                pauses[me] = pauses.get(me, 0) + 1
+                s.yield_point(me)
+
+            funcs = [(lambda prog=prog: [_run_query(av, jbasis, q, pause) for q in prog]) for prog in programs]
             results, stalled = s.run(funcs)
         finally:
             sys.setswitchinterval(old_switch)
@@ -159,6 +207,8 @@ def check_schedule(case):
         return BAD("deadlock", {"trace_len": len(s.trace), "blocked": sorted(s.blocked)})
     for i, (status, val) in enumerate(results):
         if status == "exc":
+            if isinstance(s.exceptions[i], LibraryIteratorError):
+                return BAD("exception_while_consuming_enumeration", {"thread": i, "exc": val, "switches": s.switches})
             if not engine.is_lib_exception(s.exceptions[i]):
                 raise engine.HarnessError(f"C07 harness: exception outside the library in thread {i}: {val}")
             return BAD("exception", {"thread": i, "exc": val, "switches": s.switches})
@@ -200,7 +250,7 @@ def check_stress(case):
                     barrier.wait(10)
                     results[i] = ("ok", [_run_query(av, jbasis, q) for q in prog])
                 except BaseException as exc:  # pylint: disable=broad-except
-                    results[i] = ("exc" if engine.is_lib_exception(exc) else "harness", f"{type(exc).__name__}: {exc}")
+                    results[i] = ("exc" if engine.is_lib_exception(exc) or isinstance(exc, LibraryIteratorError) else "harness", f"{type(exc).__name__}: {exc}")
 
             ths = [threading.Thread(target=work, args=(i, prog), daemon=True) for i, prog in enumerate(programs)]
             for t in ths:
@@ -248,7 +298,19 @@ def programs_for(draw, basis, nthreads=None, same_target=False):
 def schedule_cases(draw, pct=False):
     basis = draw(st.one_of(classical_basis(), classical_basis(), mesh_basis()))
     programs = draw(programs_for(basis))
-    mode = draw(st.sampled_from(["list", "list", "list", "pct", "round_robin"])) if pct else draw(st.sampled_from(["list", "list", "list", "round_robin"]))
+    mode = draw(st.sampled_from(["list", "list", "list", "pct", "round_robin", "at_pause", "at_pause"])) if pct else draw(st.sampled_from(["list", "list", "list", "round_robin", "at_pause"]))
+    if mode == "at_pause":
+        # make the scenario likely: the first thread starts with an enumeration of a short level,
+        # another thread asks for a level at least two further on
+        nmax = NMAX_MESH if _is_mesh_basis(basis) else NMAX_CL
+        small = draw(st.integers(1, max(1, nmax - 2)))
+        first = draw(st.integers(0, len(programs) - 1))
+        programs[first].insert(0, [draw(st.sampled_from(["of_length", "up_to"])), small])
+        other = (first + 1 + draw(st.integers(0, len(programs) - 2))) % len(programs)
+        programs[other].insert(0, [draw(st.sampled_from(["count", "of_length", "in"])), draw(st.integers(small + 2, nmax))] if True else None)
+        if programs[other][0][0] == "in":
+            programs[other][0][1] = list(draw(gen.perm_of(programs[other][0][1])))
+        return {"basis": basis, "programs": programs, "schedule": {"mode": "at_pause", "first": first, "after": draw(st.integers(1, 6))}}
     if mode == "list":
         style = draw(st.sampled_from(["uniform", "bursty", "short"]))
         if style == "uniform":
